@@ -610,6 +610,15 @@ var ruleEquality = &core.Rule{ID: "R15.1", Min: 4,
 				}
 				return nil, false
 			}
+			// inside a callback: a captured variable of the enclosing function that holds a normalised value when the
+			// callback is created (every store other than the parameter's initial one is a ParseMediaType result)
+			if ld, isLd := v.(*ssa.UnOp); isLd && ld.Op == token.MUL {
+				if fv, isFV := ld.X.(*ssa.FreeVar); isFV {
+					if arg, ok := parsedCapture(fv); ok {
+						return arg, true
+					}
+				}
+			}
 			ex, ok := v.(*ssa.Extract)
 			if !ok || ex.Index != 0 {
 				return nil, false
@@ -620,6 +629,44 @@ var ruleEquality = &core.Rule{ID: "R15.1", Min: 4,
 			}
 			return call.Call.Args[0], true
 		}
+		// the string equalities judged: those of the function and of the callbacks it hands to library searches
+		bodiesOf := func(f *ssa.Function) []*ssa.Function {
+			out := []*ssa.Function{f}
+			for _, ci := range core.Calls(f) {
+				if !isStdGeneric(ci.Common(), "slices.ContainsFunc") && !isStdGeneric(ci.Common(), "slices.IndexFunc") {
+					continue
+				}
+				for _, a := range ci.Common().Args {
+					if mc, ok := a.(*ssa.MakeClosure); ok {
+						if g, ok := mc.Fn.(*ssa.Function); ok {
+							out = append(out, g)
+						}
+					}
+				}
+			}
+			return out
+		}
+		// a comparison of two raw strings whose only effect is an early `return true`: equal strings have equal
+		// normal forms, so the answer agrees with the normalised comparison that follows
+		fastPath := func(bo *ssa.BinOp) bool {
+			if bo.Op != token.EQL {
+				return false
+			}
+			for _, ref := range *bo.Referrers() {
+				iff, ok := ref.(*ssa.If)
+				if !ok {
+					return false
+				}
+				r := retOf(iff.Block().Succs[0])
+				if r == nil {
+					return false
+				}
+				if v, isC := core.ConstBool(r.Results[0]); !isC || !v {
+					return false
+				}
+			}
+			return len(*bo.Referrers()) > 0
+		}
 		n := 0
 		for _, f := range cm.fs {
 			if !exportedAPI(f) || f.Signature.Results().Len() != 1 {
@@ -629,35 +676,39 @@ var ruleEquality = &core.Rule{ID: "R15.1", Min: 4,
 				continue
 			}
 			n++
-			for _, b := range f.Blocks {
-				for _, in := range b.Instrs {
-					bo, ok := in.(*ssa.BinOp)
-					if !ok || (bo.Op != token.EQL && bo.Op != token.NEQ) || !core.IsString(bo.X.Type()) {
-						continue
-					}
-					key := fmt.Sprintf("%s: string comparison #%d", core.FName(f), ordinalOfBinOp(f, bo))
-					_, okX := parsedOf(bo.X)
-					_, okY := parsedOf(bo.Y)
-					switch {
-					case okX && okY:
-						s.OK(key, c.Pos(bo.Pos()), "both sides normalised by ParseMediaType")
-					case okX || okY:
-						other := bo.X
-						if okX {
-							other = bo.Y
+			for _, body := range bodiesOf(f) {
+				for _, b := range body.Blocks {
+					for _, in := range b.Instrs {
+						bo, ok := in.(*ssa.BinOp)
+						if !ok || (bo.Op != token.EQL && bo.Op != token.NEQ) || !core.IsString(bo.X.Type()) {
+							continue
 						}
-						// alias element of the receiver
-						isAlias := false
-						if u, ok := other.(*ssa.UnOp); ok && u.Op == token.MUL {
-							if ia, ok := u.X.(*ssa.IndexAddr); ok {
-								if base, fld, ok := core.LoadOfField(ia.X); ok && fld == tm.FAliases && f.Signature.Recv() != nil && base == ssa.Value(f.Params[0]) {
-									isAlias = true
+						key := fmt.Sprintf("%s: string comparison #%d", core.FName(body), ordinalOfBinOp(body, bo))
+						_, okX := parsedOf(bo.X)
+						_, okY := parsedOf(bo.Y)
+						switch {
+						case !okX && !okY && fastPath(bo):
+							s.OK(key, c.Pos(bo.Pos()), "fast path: identical raw strings return true at once (equal strings have equal normal forms)")
+						case okX && okY:
+							s.OK(key, c.Pos(bo.Pos()), "both sides normalised by ParseMediaType")
+						case okX || okY:
+							other := bo.X
+							if okX {
+								other = bo.Y
+							}
+							// alias element of the receiver
+							isAlias := false
+							if u, ok := other.(*ssa.UnOp); ok && u.Op == token.MUL {
+								if ia, ok := u.X.(*ssa.IndexAddr); ok {
+									if base, fld, ok := core.LoadOfField(ia.X); ok && fld == tm.FAliases && f.Signature.Recv() != nil && base == ssa.Value(f.Params[0]) {
+										isAlias = true
+									}
 								}
 							}
+							s.Check(isAlias, key, c.Pos(bo.Pos()), "registered alias (normalised by R15.2) vs normalised argument", "a raw, un-normalised string is compared with a normalised media type: case, whitespace or parameters would change the answer")
+						default:
+							s.Bad(key, c.Pos(bo.Pos()), "neither side of the comparison went through mime.ParseMediaType")
 						}
-						s.Check(isAlias, key, c.Pos(bo.Pos()), "registered alias (normalised by R15.2) vs normalised argument", "a raw, un-normalised string is compared with a normalised media type: case, whitespace or parameters would change the answer")
-					default:
-						s.Bad(key, c.Pos(bo.Pos()), "neither side of the comparison went through mime.ParseMediaType")
 					}
 				}
 			}
@@ -722,7 +773,26 @@ var ruleEquality = &core.Rule{ID: "R15.1", Min: 4,
 				}
 				s.Check(okRecv, core.FName(f)+": the node's own type is normalised", c.Pos(f.Pos()), "ParseMediaType(m.mime)", "the node's own type string (which may carry a charset parameter) is compared without being parsed")
 			} else if len(f.Params) == 2 {
-				s.Check(len(fde.FindRangeOver(f, f.Params[1])) == 1, core.FName(f)+": every candidate is visited", c.Pos(f.Pos()), "range over all candidates", "EqualsAny does not range over all candidates")
+				visited := false
+				for _, rg := range fde.FindRangeOver(f, f.Params[1]) {
+					// the loop that compares normalised values (a raw fast-path loop in front of it does not count)
+					if iff := core.IfOf(rg.Body); iff != nil {
+						if bo, ok := iff.Cond.(*ssa.BinOp); ok && fastPath(bo) {
+							if _, okX := parsedOf(bo.X); !okX {
+								if _, okY := parsedOf(bo.Y); !okY {
+									continue
+								}
+							}
+						}
+					}
+					visited = true
+				}
+				for _, ci := range core.Calls(f) {
+					if isStdGeneric(ci.Common(), "slices.ContainsFunc") && ci.Common().Args[0] == ssa.Value(f.Params[1]) {
+						visited = true // the library search visits every candidate until the callback accepts one
+					}
+				}
+				s.Check(visited, core.FName(f)+": every candidate is visited", c.Pos(f.Pos()), "range over all candidates", "EqualsAny does not range over all candidates")
 			}
 			for _, r := range core.Returns(f) {
 				v, ok := core.ConstBool(r.Results[0])
@@ -743,6 +813,20 @@ var ruleEquality = &core.Rule{ID: "R15.1", Min: 4,
 							_, okY := parsedOf(y.Y)
 							return y.Op == token.EQL && okX && okY
 						case *ssa.Call:
+							if isStdGeneric(&y.Call, "slices.ContainsFunc") && len(y.Call.Args) == 2 {
+								// some candidate satisfies the callback, whose verdict is itself such a composition
+								if mc, ok := y.Call.Args[1].(*ssa.MakeClosure); ok {
+									if g, ok := mc.Fn.(*ssa.Function); ok {
+										for _, r2 := range core.Returns(g) {
+											if !okV(r2.Results[0], depth+1) {
+												return false
+											}
+										}
+										return true
+									}
+								}
+								return false
+							}
 							if f.Signature.Recv() != nil && len(y.Call.Args) == 2 {
 								if _, isParsed := parsedOf(y.Call.Args[1]); isParsed && isAliasContains(m, y, f.Params[0], y.Call.Args[1]) {
 									return true
@@ -774,7 +858,17 @@ var ruleEquality = &core.Rule{ID: "R15.1", Min: 4,
 					}
 					s.Check(under, key, c.Pos(r.Pos()), "true under an equality", "true is returned without a successful comparison")
 				} else {
-					s.OK(key, c.Pos(r.Pos()), "false")
+					// a rejection may depend on the normalised comparisons having failed, never on the raw strings
+					rawDep := ""
+					for _, de := range core.DominatingConds(r.Block()) {
+						if bo, ok := de.Cond.(*ssa.BinOp); ok && core.IsString(bo.X.Type()) {
+							continue // a string equality: judged above
+						}
+						if leaf := rawStringLeaf(f, tm.FMime, de.Cond, 0); leaf != nil {
+							rawDep = leaf.Name()
+						}
+					}
+					s.Check(rawDep == "", key, c.Pos(r.Pos()), "false after the comparisons", "false is returned under a condition on the raw, un-normalised string "+rawDep+" (its length or bytes): case, whitespace or parameters would change the answer")
 				}
 			}
 		}
@@ -850,4 +944,104 @@ func literalElems(v ssa.Value) []ssa.Value {
 		}
 	}
 	return out
+}
+
+// parsedCapture: fv is a variable captured from the enclosing function whose
+// every store there, other than the initial store of a parameter, is the first
+// result of mime.ParseMediaType, and every such store dominates the creation
+// of the closure: inside the closure the variable holds a normalised type.
+func parsedCapture(fv *ssa.FreeVar) (ssa.Value, bool) {
+	g := fv.Parent()
+	parent := g.Parent()
+	if parent == nil {
+		return nil, false
+	}
+	idx := -1
+	for i, x := range g.FreeVars {
+		if x == fv {
+			idx = i
+		}
+	}
+	for _, ref := range *fv.Referrers() {
+		if st, ok := ref.(*ssa.Store); ok && st.Addr == ssa.Value(fv) {
+			return nil, false // the callback itself writes the variable
+		}
+	}
+	var arg ssa.Value
+	for _, b := range parent.Blocks {
+		for _, in := range b.Instrs {
+			mc, ok := in.(*ssa.MakeClosure)
+			if !ok || mc.Fn != ssa.Value(g) || idx < 0 || idx >= len(mc.Bindings) {
+				continue
+			}
+			cell, ok := mc.Bindings[idx].(*ssa.Alloc)
+			if !ok {
+				return nil, false
+			}
+			parsed := 0
+			for _, ref := range *cell.Referrers() {
+				st, ok := ref.(*ssa.Store)
+				if !ok {
+					continue
+				}
+				if st.Addr != ssa.Value(cell) {
+					return nil, false
+				}
+				if _, isParam := st.Val.(*ssa.Parameter); isParam {
+					continue
+				}
+				ex, ok := st.Val.(*ssa.Extract)
+				if !ok || ex.Index != 0 {
+					return nil, false
+				}
+				pc, ok := ex.Tuple.(*ssa.Call)
+				if !ok || !core.CalleeIs(&pc.Call, "mime", "ParseMediaType") || !core.Before(st, mc) {
+					return nil, false
+				}
+				parsed++
+				arg = pc.Call.Args[0]
+			}
+			if parsed == 0 {
+				return nil, false
+			}
+		}
+	}
+	return arg, arg != nil
+}
+
+// rawStringLeaf: v is computed (through comparisons, arithmetic, len, indexing)
+// from a raw string input of f: a string parameter or the receiver's type string.
+func rawStringLeaf(f *ssa.Function, fMime int, v ssa.Value, depth int) ssa.Value {
+	if depth > 6 || v == nil {
+		return nil
+	}
+	switch x := v.(type) {
+	case *ssa.Parameter:
+		if core.IsString(x.Type()) {
+			return x
+		}
+	case *ssa.BinOp:
+		if l := rawStringLeaf(f, fMime, x.X, depth+1); l != nil {
+			return l
+		}
+		return rawStringLeaf(f, fMime, x.Y, depth+1)
+	case *ssa.UnOp:
+		if _, fld, ok := core.LoadOfField(x); ok && fld == fMime && core.IsString(x.Type()) {
+			return x
+		}
+		return rawStringLeaf(f, fMime, x.X, depth+1)
+	case *ssa.Call:
+		if core.IsBuiltin(&x.Call, "len") {
+			return rawStringLeaf(f, fMime, x.Call.Args[0], depth+1)
+		}
+	case *ssa.Index:
+		return rawStringLeaf(f, fMime, x.X, depth+1)
+	case *ssa.Lookup:
+		return rawStringLeaf(f, fMime, x.X, depth+1)
+	case *ssa.Slice:
+		return rawStringLeaf(f, fMime, x.X, depth+1)
+	case *ssa.Convert:
+		return rawStringLeaf(f, fMime, x.X, depth+1)
+	}
+	return nil
 }
